@@ -73,6 +73,8 @@ def build(S, v):
         return None if v is None else build(S.inner, v)
     if isinstance(S, api.Struct):
         cls = resolve_member(S.pycls)
+        if issubclass(cls, tuple) and hasattr(cls, '_fields'):
+            return cls(*[build(S.fields[k], v.get(k) if isinstance(v, dict) else getattr(v, k)) for k in cls._fields])
         o = object.__new__(cls)
         for k, fs in S.fields.items():
             val = build(fs, v.get(k) if isinstance(v, dict) else getattr(v, k))
@@ -97,6 +99,9 @@ def build(S, v):
     if isinstance(S, api.Seq):
         return tuple(build(S.elem, x) for x in v)
     if isinstance(S, api.Set):
+        if isinstance(v, dict) and '__set__' in v:
+            import re as _re
+            return set(int(x) for x in _re.findall(r'Store\([^,]*?,\s*(-?\d+),\s*True\)', v['__set__'])) if 'Store' in v['__set__'] else set()
         return set(build(S.elem, x) for x in v) if not isinstance(v, dict) else set()
     if isinstance(S, api.TupleS):
         return tuple(build(e, x) for e, x in zip(S.elems, v))
@@ -127,7 +132,7 @@ def text_env(reg, c, mod, universe):
     def seq_eq_from(a, b, k):
         return tuple(a)[k:] == tuple(b)[k:] and (len(a) == len(b) or (k >= len(a) and k >= len(b) and len(a) == len(b)))
     env.update(forall=forall, exists=exists, implies=lambda a, b: (not a) or b, unit=lambda x: (x,), EMPTY=(),
-               old=lambda x: x, rev=lambda s_: tuple(reversed(tuple(s_))), ite=lambda c_, a, b: a if c_ else b, seq_eq_from=seq_eq_from)
+               old=lambda x: x, rev=lambda s_: tuple(reversed(tuple(s_))), rangeset=lambda *a: set(range(*a)), setadd=lambda s_, x: set(s_ or ()) | {x}, emptyset=lambda *a: set(), re_match=lambda p, s_, m='match': getattr(p, m)(s_) is not None, re_group=lambda p, k, s_, m='match': (getattr(p, m)(s_).group(k) or '') if getattr(p, m)(s_) else '', re_group_none=lambda p, k, s_, m='match': getattr(p, m)(s_) is None or getattr(p, m)(s_).group(k) is None, ite=lambda c_, a, b: a if c_ else b, seq_eq_from=seq_eq_from)
     return env
 
 
